@@ -3,7 +3,18 @@ use crate::out;
 use multiboot2::ElfSection;
 use serde_json::{json, Value};
 
-pub fn section_json(s: &ElfSection<'static>) -> Value {
+pub fn section_json(s: &ElfSection<'static>, ext: Option<(usize, usize)>) -> Value {
+    let mut v = section_json0(s);
+    if let Some((addr, _len)) = ext {
+        v["name"] = match s.name() {
+            Ok(n) => out::ok(json!({"eat": out::clamp(n.as_ptr() as usize as i128 - addr as i128), "len": out::num(n.len())})),
+            Err(_) => out::err("Utf8"),
+        };
+    }
+    v
+}
+
+fn section_json0(s: &ElfSection<'static>) -> Value {
     json!({
         "raw": out::le(s.section_type_raw() as u64, 4),
         "typ": out::le(s.section_type() as u32 as u64, 4),
